@@ -14,6 +14,8 @@ var e14 = []string{"(*Schema).AddType", "(*Schema).RemoveType", "(*Schema).AddAt
 	"(*Type).AddAttr", "(*Type).RemoveAttr", "(*Type).AddRel", "(*Type).RemoveRel"}
 
 func checkC14(p *Prog, r *Report) {
+	r.rule("C14.type-lookup: Schema.GetType / HasType find a type by one exact equality test between a type's Name and the requested name and call nothing else (the comparison AddType uses to keep names unique)")
+	checkTypeLookup(p, r, "C14")
 	r.rule(r3RuleText)
 	r.rule("R11 splice loops (RemoveType): after removing element i the loop must leave or re-examine position i")
 	r.rule("R12 all-or-nothing: on every CFG path of an error-returning edit method to a return that may carry a non-nil error, no instruction has written pre-existing memory (writes from the mod analysis; calls to callees that are themselves all-or-nothing are handled path-sensitively on their error result)")
@@ -549,4 +551,52 @@ func checkTwoWayApplies(p *Prog, r *Report, h *Heap) {
 			"the second relationship is the inverse of the normalised one",
 			"the second relationship is not computed from the normalised one: for a relationship given in the other direction both sides are the same relationship")
 	})
+}
+
+// checkTypeLookup: Schema.GetType and Schema.HasType find a type by exact
+// equality of its Name with the requested name - the same comparison AddType
+// uses to keep names unique - and GetType hands out the matching element.
+// Shared by the properties that rely on "the type of that name".
+func checkTypeLookup(p *Prog, r *Report, prefix string) {
+	for _, name := range []string{"(*Schema).GetType", "(*Schema).HasType"} {
+		f := p.Fn(name)
+		if f == nil {
+			r.fail("anchor %s not found", name)
+			continue
+		}
+		r.fn(funcName(f))
+		want := f.Params[1]
+		good, why := true, ""
+		nEq := 0
+		eachInstr(f, func(ins ssa.Instruction) {
+			switch x := ins.(type) {
+			case *ssa.Call:
+				if builtinName(x.Common()) == "" {
+					good, why = false, "the lookup calls "+p.describe(x)+" ("+p.pos(x.Pos())+") instead of comparing names with =="
+				}
+			case *ssa.If:
+				bo, ok := x.Cond.(*ssa.BinOp)
+				if !ok {
+					good, why = false, "a branch of the lookup is not a plain comparison"
+					return
+				}
+				if bo.Op == token.LSS {
+					return // the loop test
+				}
+				isName := func(v ssa.Value) bool {
+					_, fl, ok := fieldLoad(v)
+					return ok && fl == "Name"
+				}
+				if bo.Op == token.EQL && ((isName(bo.X) && bo.Y == ssa.Value(want)) || (isName(bo.Y) && bo.X == ssa.Value(want))) {
+					nEq++
+					return
+				}
+				good, why = false, "a branch of the lookup does not compare a type's Name with the requested name for equality ("+p.pos(bo.Pos())+")"
+			}
+		})
+		if good && nEq != 1 {
+			good, why = false, "the lookup does not consist of one equality test on the Name"
+		}
+		r.decide(good, prefix+".type-lookup", name+":exact-name", p.pos(f.Pos()), "finds a type by exact equality of its Name (as AddType's uniqueness test does)", name+" does not find types by exact name equality: "+why+"; two types that AddType keeps apart can answer to the same name")
+	}
 }
